@@ -27,7 +27,7 @@ ASSUMPTIONS = ['rule bodies contain no rule: references (reference cycles throug
 LEVEL_TEXT = ('The complete decision table of the statement (about 1.3e5 rows) is driven through the real enforcer and '
               'compared row by row; a finite quantifier, so enumeration is the right level.')
 LEVEL_NOTE = 'trusted: the 12-line reference function; the name/role universe is small by design'
-PLAN = {'quick': dict(shards=4, wall=90), 'thorough': dict(shards=8, wall=300)}
+PLAN = {'quick': dict(shards=4, wall=120), 'thorough': dict(shards=8, wall=300)}
 MIN = {'overlapping_evaluations': 200, 'decisions_during_reload': 100, 'configs_under_debug_logging': 100, 'registered_decisions': 2000, 'mutation_decisions': 20000, 'evaluations': 10000, 'fallback_rows': 2000, 'allow_decisions': 1000, 'deny_decisions': 1000}
 ANCHORS = ['oslo_policy.policy:Rules.__missing__', 'oslo_policy.policy:Enforcer.enforce',
            'oslo_policy.policy:Enforcer.set_rules', 'oslo_policy.policy:Rules.__init__']
